@@ -507,6 +507,7 @@ class FnTranslator:
         self.registry = registry or {}      # python function name (same module) -> Target, for sibling calls
         self.universes = universes or {}
         self.ntmp = 0
+        self._cmp_binds = []
         self.is_gen = contains(strip_doc(fnode.body), (ast.Yield, ast.YieldFrom))
         self.monadic = bool(target.raises)
         self.size = 0
@@ -841,21 +842,29 @@ class FnTranslator:
         return ctx.raise_(self.err_text(s))
 
     def pure_message(self, n, env):
-        """an exception message built from constants, variables, `+`, `%`, `.format(..)`, str()/repr(): it has no
-        behaviour the translation models (the exception CLASS is the observation) and cannot raise on its own"""
+        """an exception message the translation need not model (the exception CLASS is the observation) and that cannot
+        raise on its own: a string constant, `<constant>.format(<variables / constants>)`, `str(x)` / `repr(x)`, and
+        `+` between such parts that the translator types as strings"""
         if isinstance(n, ast.Constant):
+            return isinstance(n.value, str)
+        if isinstance(n, ast.BinOp) and isinstance(n.op, ast.Add):
+            for side in (n.left, n.right):
+                if self.pure_message(side, env):
+                    continue
+                try:
+                    e = self.tr_expr(side, env)
+                except Refuse:
+                    return False
+                if e.ty != STR or e.binds:
+                    return False
             return True
-        if isinstance(n, ast.Name):
-            return n.id in env or self.const_of(n.id) is not None
-        if isinstance(n, ast.BinOp) and isinstance(n.op, (ast.Add, ast.Mod)):
-            return self.pure_message(n.left, env) and self.pure_message(n.right, env)
-        if isinstance(n, (ast.Tuple, ast.List)):
-            return all(self.pure_message(x, env) for x in n.elts)
         if isinstance(n, ast.Call) and not n.keywords:
-            if isinstance(n.func, ast.Attribute) and n.func.attr == 'format':
-                return self.pure_message(n.func.value, env) and all(self.pure_message(x, env) for x in n.args)
+            simple = lambda x: isinstance(x, ast.Constant) or (isinstance(x, ast.Name) and (x.id in env or self.const_of(x.id) is not None))  # noqa
+            if isinstance(n.func, ast.Attribute) and n.func.attr == 'format' and isinstance(n.func.value, ast.Constant) \
+                    and isinstance(n.func.value.value, str):
+                return all(simple(x) for x in n.args)
             if isinstance(n.func, ast.Name) and n.func.id in ('str', 'repr') and n.func.id not in env:
-                return all(self.pure_message(x, env) for x in n.args)
+                return len(n.args) == 1 and simple(n.args[0])
         return False
 
     def st_Break(self, s, env, ctx, cont, rest):
@@ -1622,8 +1631,13 @@ class FnTranslator:
         if len(es) > 2 and any(e.binds for e in es[1:]):
             self.refuse(n, 'chained comparison with an operand that may raise')
         parts = []
+        self._cmp_binds = []
         for (a, op, b, na, nb) in zip(es, n.ops, es[1:], operands, operands[1:]):
             parts.append(self.cmp1(a, op, b, n))
+        if self._cmp_binds and len(parts) > 1:
+            self.refuse(n, 'chained comparison with a comparison that may raise')
+        binds = binds + self._cmp_binds
+        self._cmp_binds = []
         return binds, parts[0] if len(parts) == 1 else '(%s)' % ' ∧ '.join(parts)
 
     def cmp1(self, a, op, b, n):
@@ -1657,8 +1671,8 @@ class FnTranslator:
             return '(%s %s %s)' % (a2.text, '=' if o == 'Eq' else '≠', b2.text)
         r = self.named_op(o, [a, b], n)
         if r is not None:
-            if r.binds:
-                self.refuse(n, 'comparison primitive that may raise in a condition')
+            # a comparison primitive that may raise: its binding is collected by tr_compare
+            self._cmp_binds += r.binds
             return '(%s = true)' % r.text
         self.refuse(n, 'comparison %s on types %s, %s' % (o, a.ty, b.ty))
 
@@ -2165,5 +2179,13 @@ def translate_target(repo, target, registry=None, universes=None, cache=None):
     if fnode is None:
         raise Refuse(target.qual, None, 'function not found in %s' % path)
     tr = FnTranslator(target, fnode, registry=registry, universes=universes)
-    text = tr.translate()
+    try:
+        text = tr.translate()
+    except Refuse:
+        raise
+    except Exception as e:      # a defect of the translator on this input: refuse loudly, never guess
+        import traceback
+        where = traceback.extract_tb(e.__traceback__)[-1]
+        raise Refuse(target.qual, fnode, 'translator internal error %r at py2lean.py:%d - treated as outside the subset'
+                     % (e, where.lineno))
     return dict(text=text, digest=source_digest(fnode), line=fnode.lineno, path=os.path.relpath(path, repo))
